@@ -12,6 +12,7 @@ from graphql import (
     GraphQLField,
     GraphQLNamedType,
     GraphQLNonNull,
+    GraphQLInterfaceType,
     GraphQLObjectType,
     GraphQLSchema,
     GraphQLString,
@@ -416,9 +417,9 @@ class ResultTypesGenerator:
         if not type_:
             return None
 
-        if isinstance(type_, GraphQLObjectType) and selection_value in {
-            interface.name for interface in type_.interfaces
-        }:
+        if isinstance(
+            type_, (GraphQLObjectType, GraphQLInterfaceType)
+        ) and selection_value in {interface.name for interface in type_.interfaces}:
             return selection_value
 
         if selection_value == root_type:
